@@ -93,6 +93,7 @@ type Engine struct {
 	noPanic    bool
 	permute    bool
 	reachSeen  map[string]bool
+	failedLabels map[string]bool
 	reachPending map[string]string
 	lastPanic  *goPanic
 	collisionFree bool
@@ -1303,6 +1304,18 @@ func (e *Engine) runHarness(fn *ssa.Function) {
 		func() {
 			defer func() {
 				if r := recover(); r != nil {
+					if e.trace {
+						fmt.Fprintf(os.Stderr, "  [path %d ends] %T %v pc=%d\n", e.pathNo, r, r, len(e.pc))
+						if _, isEnd := r.(pathEnd); isEnd {
+							for _, c := range e.pc {
+								s := c.String()
+								if len(s) > 400 {
+									s = s[:400] + "…"
+								}
+								fmt.Fprintf(os.Stderr, "      pc: %s\n", s)
+							}
+						}
+					}
 					switch x := r.(type) {
 					case pathEnd:
 					case inconclusive:
